@@ -271,14 +271,19 @@ class Text(ExcelType):
     sort_precedence = 1
 
     def __number__(self):
-        try:
-            return int(self.value)
-        except ValueError:
-            pass
-        try:
-            return float(self.value)
-        except ValueError:
-            pass
+        # Python reads more texts as numbers than Excel does: digits grouped
+        # with underscores ("1_0") and the words "inf", "infinity", "nan".
+        if '_' not in self.value:
+            try:
+                return int(self.value)
+            except ValueError:
+                pass
+            try:
+                number = float(self.value)
+                if math.isfinite(number):
+                    return number
+            except ValueError:
+                pass
         # For arithmetic, boolean text is actually interpreted.
         try:
             return int(self.__bool__(by_content_only=True))
@@ -306,6 +311,8 @@ class Text(ExcelType):
 
     def __datetime__(self):
         try:
+            if '_' in self.value:
+                raise ValueError(self.value)
             return utils.number_to_datetime(float(self.value))
         except (ValueError, OverflowError):
             pass
